@@ -116,6 +116,8 @@ def judge(rec, prob, sol, cell, label, tol_user=None, extra=None):
     """OPTIMAL => feasible."""
     rec.cmp(1, cell)
     rec.paths[f"{label}:{sol.status.value}"] += 1
+    rec.sample({"cell": cell, "objective": A.render(prob["objective"])[:200], "constraints": [A.render(c)[:120] for c in prob.get("constraints", [])][:4],
+                "status": sol.status.value, **({k: v for k, v in (extra or {}).items() if k in ("method", "options", "script")})}, cap=4)
     if sol.status.value != "optimal":
         return
     if not sol.values:
